@@ -216,6 +216,7 @@ def _new_long(ex, st, val80, tag):
     c = Ctx(ex, {}, st)
     st.assume(z3.And(z3.UGE(o, BV(USER_LO, 64)), z3.ULT(o, BV(USER_HI, 64))))
     st.assume(is_long(c, st, o))
+    st.assume(py_type(c, st, o) == ex.global_addr('PyLong_Type'))      # exactly int, never bool
     st.assume(int_w(o) == val80)
     st.assume(int_m(o) == z3.Extract(63, 0, val80))
     return o
@@ -326,3 +327,61 @@ def _indirect(ex, st, args, n):
 R.models['<indirect>'] = _indirect
 R.assumed['<indirect>'] = "a call through a function pointer (type slot) runs arbitrary code: all modelled state " \
                           "is havocked; a NULL result comes with an exception set"
+
+
+# -- allocation (A-ALLOC: succeeds; the result is fresh) -----------------------------------------------
+
+@R.model('PyObject_Malloc', "returns a fresh region of n bytes (allocation succeeds: A-ALLOC)")
+def _pymalloc(ex, st, args, n):
+    return ex.alloc(st, args[0], 'PyObject_Malloc')
+
+
+R.models['malloc'] = _pymalloc
+R.assumed['malloc'] = "returns a fresh region of n bytes (allocation succeeds: A-ALLOC)"
+R.models['PyMem_Malloc'] = _pymalloc
+R.assumed['PyMem_Malloc'] = "returns a fresh region of n bytes (allocation succeeds: A-ALLOC)"
+
+
+@R.model('PyObject_Init', "sets ob_type of the object and returns it")
+def _pyinit(ex, st, args, n):
+    ex.write_field(st, args[0], 'PyObject', 'ob_type', args[1])
+    return args[0]
+
+
+@R.model('_PyObject_New', "returns a fresh object of tp_basicsize bytes with ob_type set (allocation succeeds)")
+def _pynew(ex, st, args, n):
+    c = Ctx(ex, {}, st)
+    size = c.field(st, args[0], 'PyTypeObject', 'tp_basicsize')
+    st.assume(z3.And(size >= 16, size <= 4096))
+    p = ex.alloc(st, size, '_PyObject_New')
+    ex.write_field(st, p, 'PyObject', 'ob_type', args[0])
+    return p
+
+
+@R.model('PyLong_AsLong', "int object: the value if it fits a C long, else -1 with OverflowError; requires an int object")
+def _as_long(ex, st, args, n):
+    o = args[0]
+    c = Ctx(ex, {}, st)
+    ex.ob('call-requires', line_of(n), 'PyLong_AsLong:int-object', st, is_long(c, st, o))
+    st.assume(pyint_axiom(o))
+    w = int_w(o)
+    fits = z3.And(w >= wv(-(1 << 63)), w <= wv((1 << 63) - 1))
+    st.err = z3.If(fits, st.err, exc(ex, 'OverflowError'))
+    return z3.If(fits, z3.Extract(63, 0, w), BV(-1, 64))
+
+
+def bool_objects(ex, st):
+    """Py_True / Py_False are int objects (type bool) with values 1 / 0"""
+    c = Ctx(ex, {}, st)
+    t, f = ex.global_addr('_Py_TrueStruct'), ex.global_addr('_Py_FalseStruct')
+    bt = ex.global_addr('PyBool_Type')
+    return z3.And(py_type(c, st, t) == bt, py_type(c, st, f) == bt, is_long(c, st, t), is_long(c, st, f),
+                  int_w(t) == wv(1), int_w(f) == wv(0), int_m(t) == BV(1, 64), int_m(f) == BV(0, 64))
+
+
+def kind_flags_exclusive(c, st, o):
+    """a type is a subclass of at most one of int / bytes / str / tuple / list / dict (CPython layout conflict)"""
+    fl = tp_flags(c, st, py_type(c, st, o))
+    bits = [fl & BV(b, 64) != 0 for b in (TPFLAGS_LONG, TPFLAGS_BYTES, TPFLAGS_UNICODE, TPFLAGS_TUPLE, TPFLAGS_LIST,
+                                          TPFLAGS_DICT)]
+    return z3.And(*[z3.Not(z3.And(a, b)) for i, a in enumerate(bits) for b in bits[i + 1:]])
